@@ -26,7 +26,7 @@ Open Scope list_scope.
 
 (* Python exception classes the path can raise (ECell = ParseMCNPCellError,
    ELoop = the LIKE loop does not terminate: the model ran out of fuel) *)
-Inductive err := EIndex | EValue | EType | EZeroDiv | EKey | ECell | EMissingLattice | EAssert | ETransf | ELoop.
+Inductive err := EIndex | EValue | EType | EZeroDiv | EKey | ECell | EMissingLattice | EAssert | ETransf | EAttr | ELoop.
 Inductive res (A : Type) := Ok (a : A) | Err (e : err).
 Arguments Ok {A}. Arguments Err {A}.
 
@@ -560,3 +560,25 @@ Section Model.
   Definition note (skipped : list Z) : option (list Z) :=
     match skipped with [] => None | _ => Some skipped end.
 End Model.
+
+(* str(list of int): "[1, 2, 30]" *)
+Fixpoint join_comma (ws : list string) : string :=
+  match ws with
+  | [] => ""
+  | [w] => w
+  | w :: r => (w ++ ", " ++ join_comma r)%string
+  end.
+Definition py_int_list (l : list Z) : string := ("[" ++ join_comma (map dec_Z l) ++ "]")%string.
+
+(* main.py, end of conversion(): what print() sends to stdout for the skip list,
+   as the list of lines separated by newline characters (the text starts with
+   an empty line and ends with a newline); nothing for an empty list *)
+Definition note_lines (skipped : list Z) : list string :=
+  match skipped with
+  | [] => []
+  | _ => [ "";
+           "NOTE: the following cells have been omitted from the conversion";
+           "      because their importance is equal to zero:";
+           ("      " ++ py_int_list skipped)%string;
+           "" ]
+  end.
